@@ -11,7 +11,8 @@ package singleflight
 // refactoring and must not break the driver's build). The fields are located once, at start-up,
 // by their TYPE with reflect, and read through unsafe pointers at the offsets found:
 //
-//	Group: the only field of type sync.Mutex                          (the group's lock)
+//	Group (and, transitively, its by-value struct fields — an adapter around a library group is seen through):
+//	       the only field of type sync.Mutex                          (the group's lock)
 //	       the only field of a type map[string]*<struct>              (the in-flight calls)
 //	<struct> (the map's element, `call` today):
 //	       the only field of kind int                                 (the count of callers that joined)
@@ -48,20 +49,39 @@ func verifFieldList(t reflect.Type) string {
 	return t.String() + " { " + s + " }"
 }
 
-// verifOnly returns the offset of the only field of t that satisfies want. If several do (a change added a second
-// counter, say) the one named `today` — the field's present name, looked up as a string, so nothing breaks when it
-// is renamed — is taken if it is among them; otherwise the shape is ambiguous.
-func verifOnly(t reflect.Type, what, today string, want func(reflect.StructField) bool) (uintptr, reflect.Type) {
-	found := -1
+// verifFlat lists the fields of t together with the fields of its by-value struct fields, transitively
+// (offsets accumulated): a Group that merely wraps another group type by value — an adapter over a
+// library implementation with the same lock / map / call layout, say — is observed through the wrapper.
+// Types of package sync (Mutex, WaitGroup, ... are structs themselves) are never descended into.
+func verifFlat(t reflect.Type, base uintptr, prefix string) []reflect.StructField {
+	var out []reflect.StructField
 	for i := 0; i < t.NumField(); i++ {
-		if want(t.Field(i)) {
+		f := t.Field(i)
+		f.Offset += base
+		f.Name = prefix + f.Name
+		out = append(out, f)
+		if f.Type.Kind() == reflect.Struct && f.Type.PkgPath() != "sync" {
+			out = append(out, verifFlat(f.Type, f.Offset, f.Name+".")...)
+		}
+	}
+	return out
+}
+
+// verifOnly returns the offset of the only (possibly nested, see verifFlat) field of t that satisfies want. If
+// several do (a change added a second counter, say) the one named `today` — the field's present name, looked up as
+// a string, so nothing breaks when it is renamed — is taken if it is among them; otherwise the shape is ambiguous.
+func verifOnly(t reflect.Type, what, today string, want func(reflect.StructField) bool) (uintptr, reflect.Type) {
+	fields := verifFlat(t, 0, "")
+	found := -1
+	for i, f := range fields {
+		if want(f) {
 			if found >= 0 {
 				// several candidates: the one that still carries today's name, if exactly one of the candidates does
 				if f, ok := t.FieldByName(today); ok && want(f) {
 					return f.Offset, f.Type
 				}
 				panic(fmt.Sprintf("verif shim (singleflight, C16): set-up failure: %s has more than one field that is %s (%s and %s): "+
-					"which one to observe is ambiguous; shape found: %s", t, what, t.Field(found).Name, t.Field(i).Name, verifFieldList(t)))
+					"which one to observe is ambiguous; shape found: %s", t, what, fields[found].Name, f.Name, verifFieldList(t)))
 			}
 			found = i
 		}
@@ -69,7 +89,7 @@ func verifOnly(t reflect.Type, what, today string, want func(reflect.StructField
 	if found < 0 {
 		panic(fmt.Sprintf("verif shim (singleflight, C16): set-up failure: %s has no field that is %s; shape found: %s", t, what, verifFieldList(t)))
 	}
-	return t.Field(found).Offset, t.Field(found).Type
+	return fields[found].Offset, fields[found].Type
 }
 
 func verifResolveShape() verifShape {
